@@ -278,15 +278,17 @@ func mergeCustomObjectFields(aTypes, bTypes map[string]*ast.Definition, a, b *as
 	isOverlappinggMap := make(map[int]bool)
 	mf := mergeableFields(b)
 	for i, f := range mf {
-		if isIDField(f) {
-			continue
-		}
-
 		rf := result.ForName(f.Name)
 		// a field declared by both sides must have one signature
 		if rf != nil && !isSameSignature(rf, f) {
 			return nil, fmt.Errorf("field collision: %s.%s declared with different signatures", a.Name, f.Name)
 		}
+
+		// id is shared by both sides: skip it only if it is already there
+		if isIDField(f) && rf != nil {
+			continue
+		}
+
 		isOverlappinggMap[i] = rf != nil
 		result = append(result, f)
 	}
